@@ -46,6 +46,10 @@ CLAIMED = {
              text="Child indices are solver variables constrained to form a tree, so one query covers every shape up to the node bound (quick 3, thorough 4-5); iterator sequences must equal the recursive traversal of the same file, every link must be restored, and bintree_free/free_left/free_right on heap nodes must free children before parents exactly once without touching freed memory.",
              note="Trusted: cbmc 6.11 + minisat incl. its pointer-tagging and heap model; recursive traversals as order oracle; malloc assumed to succeed.",
              ref="C11"),
+ "C15": dict(technique="bounded symbolic execution of console.c (cbmc, SAT), cut along the property's structure: tokenizer on all lines of a length, one editor step from an arbitrary editor state, command lookup/registration over arbitrary sorted tables, console_eval against a draining consumer",
+             text="Each piece runs the real function (console.c included into the harness TU) from a directly constructed arbitrary valid state with all data symbolic: do_tokenize vs a reference splitter written from the statement; one input byte through console_run vs an abstract line editor incl. the 79-character limit; find_command/console_register incl. the full table; console_eval on an exactly-sized heap console_t so out-of-object writes are dereference failures. The editor step is inductive over input streams.",
+             note="Trusted: cbmc 6.11 + minisat, the reference splitter and abstract editor in harness/c15_*.c, cbmc's C-locale ctype models. Whole-pipeline-from-init runs are outside (no verdict); console_process/console_putchar are covered as ringbuf_put + console_run by composition.",
+             ref="C15"),
 }
 NA = {}
 
